@@ -51,6 +51,8 @@ pub struct Behaviour {
     pub server_settings: bool,
     /// the server's own scheme: pushed with UpdatePaddingScheme when the client's md5 differs
     pub scheme: Option<Vec<u8>>,
+    /// per-connection override of `scheme` (connection i uses entry i, the last entry afterwards)
+    pub schemes: Vec<Vec<u8>>,
 }
 
 #[derive(Default, Debug)]
@@ -102,7 +104,11 @@ impl RefServer {
                 let Ok((tcp, _)) = l.accept().await else { break };
                 let _ = tcp.set_nodelay(true);
                 let acceptor = acceptor.clone();
-                let beh = beh.clone();
+                let mut beh = beh.clone();
+                if !beh.schemes.is_empty() {
+                    let i = c2.lock().unwrap().len().min(beh.schemes.len() - 1);
+                    beh.scheme = Some(beh.schemes[i].clone());
+                }
                 let c3 = c2.clone();
                 let live3 = live2.clone();
                 tokio::spawn(async move {
